@@ -1,4 +1,4 @@
-From Plotink Require Import Base.Prelude Spec.Firmware Model.EbbCalc Corr.C02.
+From Plotink Require Import Base.Prelude Base.Rnd Spec.Firmware Model.EbbCalc Model.EbbCalcRnd Corr.C02.
 Open Scope Z_scope.
 
 (* O(1) true peak of |rate| over ticks 1..T: the ends and the integers around the vertex 1/2 - A/J *)
@@ -16,7 +16,8 @@ Definition check17 (c : case17) : Z :=
   | K17 T rate accel jerk imax =>
       let r k := Z.abs (t3_rate_closed k rate accel jerk) in
       let peak := t3_peak T rate accel jerk in
-      code_of (negb (max_rate_t3 T rate accel jerk =? imax))
+      (* bit 0: the output differs from the exact model or from the executed float model (max_rate_t3_r with round-to-nearest-even at 53 bits) *)
+      code_of (negb ((max_rate_t3 T rate accel jerk =? imax) && (max_rate_t3_r (round_ne 53) T rate accel jerk =? imax)))
               (negb ((imax <=? peak) && (r 1 <=? imax) && (r T <=? imax) && (peak - imax <=? Z.abs jerk)))
   end.
 Definition run17 (cs : list case17) := report (map check17 cs).
